@@ -99,11 +99,131 @@ def loomProg (mode : String) (n : Nat) : Option Bool :=
       | some s1 => (step s1 (.take 0)).map fun s => explore 200 s []
     | _ => none
 
+/-! ### layer `rt`: real File / UnixStream / TcpStream programs
+
+`op h` = the harness' op future owns a helper clone of the handle (actor n) and the operation its own
+clone (actor n+1); `fin`/`cancel` release both. -/
+
+structure RtSt where
+  s : St
+  helpers : List Nat
+
+def showRt (s : St) (r : String) : String :=
+  let pw := (List.range s.actors.length).filter fun i =>
+    (s.role i == some (Role.closer .parked)) && s.woken.contains i
+  let pws := if pw.isEmpty then "-" else ",".intercalate (pw.map toString)
+  s!"ok c={s.count} open={if s.released = 0 then 1 else 0} pw={pws} r={r}"
+
+def isHandle (t : RtSt) (h : Nat) : Bool :=
+  t.s.role h == some (Role.handle .live) && !t.helpers.contains h
+
+def rtEvent (t : RtSt) (w : List String) : Option (RtSt × String) :=
+  match w with
+  | [k, n] =>
+    (n.toNat?).bind fun i =>
+      if k = "clone" then
+        if isHandle t i then (step t.s (.clone i)).map fun s' => ({ t with s := s' }, showRt s' "-") else none
+      else if k = "drop" then
+        if isHandle t i then (step t.s (.drop i)).map fun s' => ({ t with s := s' }, showRt s' "-") else none
+      else if k = "op" then
+        if isHandle t i then
+          (run t.s [.clone i, .opStart i]).map fun s' =>
+            ({ s := s', helpers := t.s.actors.length :: t.helpers }, showRt s' "-")
+        else none
+      else if k = "fin" || k = "cancel" then
+        if t.s.role i == some (Role.op .live) then
+          (run t.s [.drop i, .drop (i - 1)]).map fun s' =>
+            ({ t with s := s' }, showRt s' (if k = "fin" then "ok" else "-"))
+        else none
+      else if k = "close" then
+        if isHandle t i then (step t.s (.close i)).map fun s' => ({ t with s := s' }, showRt s' "-") else none
+      else if k = "poll" then
+        (step t.s (.poll i)).map fun s' =>
+          let r := match s'.role i with
+            | some (Role.closer .parked) => "pending"
+            | _ => "ready"
+          ({ t with s := s' }, showRt s' r)
+      else if k = "dropfut" then
+        (step t.s (.dropFut i)).map fun s' => ({ t with s := s' }, showRt s' "-")
+      else none
+  | _ => none
+
+/-! ### layer `prod`: descriptor-producing operations -/
+
+structure PrSt where
+  p : Compio.Produced.St
+  kind : String
+  iour : Bool
+  conns : Nat      -- connections made by peers and not yet accepted
+  peers : Nat
+
+open Compio.Produced in
+def prUnit (t : PrSt) : Nat := if t.kind = "pipe" then 2 else 1
+
+def showPr (t : PrSt) (r : String) (x : Option Nat) : String :=
+  let xs := match x with
+    | some n => toString n
+    | none => "-"
+  s!"ok r={r} taken={t.p.taken.length} x={xs}"
+
+def prRun (t : PrSt) (evs : List Compio.Produced.Ev) : Option PrSt :=
+  (Compio.Produced.run t.p evs).map fun p' => { t with p := p' }
+
+def isBlockingKind (k : String) : Bool := k = "open" || k = "socket" || k = "pipe"
+
+/-- what the driver does with the operation once the runtime is driven -/
+def prSettle (t : PrSt) : Option PrSt :=
+  if t.p.inDriver && t.p.result.isNone then
+    if t.p.cancelled then
+      prRun t [.complete (isBlockingKind t.kind)]
+    else if t.kind = "accept" then
+      if t.conns > 0 then prRun { t with conns := t.conns - 1 } [.complete true] else some t
+    else if t.kind = "multi" then
+      prRun { t with conns := 0 } (List.replicate t.conns .shot)
+    else prRun t [.complete true]
+  else some t
+
+def prEvent (t : PrSt) (w : List String) : Option (PrSt × String) :=
+  match w with
+  | ["submit"] =>
+    if t.p.fut = .idle then
+      if t.kind = "accept" && !t.iour && t.conns > 0 then
+        (prRun { t with conns := t.conns - 1 } [.pollImm true]).map fun t' => (t', showPr t' "ready-ok" none)
+      else (prRun t [.poll]).map fun t' => (t', showPr t' "pending" none)
+    else none
+  | ["connect"] =>
+    if (t.kind = "accept" || t.kind = "multi") && t.peers < 4 then
+      let t' := { t with conns := t.conns + 1, peers := t.peers + 1 }
+      some (t', showPr t' "-" none)
+    else none
+  | ["settle"] =>
+    (prSettle t).map fun t' => (t', showPr t' "-" (some (t'.p.held.length * prUnit t')))
+  | ["poll"] =>
+    if t.p.fut = .submitted then
+      if t.kind = "multi" then
+        if t.p.held.isEmpty then some (t, showPr t "pending" none)
+        else (prRun t [.popShot]).map fun t' => (t', showPr t' "ready-ok" none)
+      else
+        match t.p.result with
+        | none => some (t, showPr t "pending" none)
+        | some ok => (prRun t [.poll]).map fun t' => (t', showPr t' (if ok then "ready-ok" else "ready-err") none)
+    else none
+  | ["drop"] =>
+    if t.p.fut = .submitted then (prRun t [.dropFut]).map fun t' => (t', showPr t' "-" none) else none
+  | _ => none
+
+def prEnd (t : PrSt) : String :=
+  let t1 := if t.p.fut = .submitted || t.p.fut = .idle then (prRun t [.dropFut]).getD t else t
+  let t2 := if t1.p.inDriver && t1.p.result.isNone then (prRun t1 [.complete (isBlockingKind t1.kind)]).getD t1 else t1
+  s!"leak={t2.p.held.length * prUnit t2}"
+
 /-! ### line loop -/
 
 inductive Mode where
   | none
   | sfd (s : St)
+  | rt (t : RtSt)
+  | pr (t : PrSt)
 
 def stepLine (m : Mode) (line : String) : Mode × String :=
   if line.startsWith "#case" then (.none, line.trimAscii.toString) else
@@ -119,6 +239,26 @@ def stepLine (m : Mode) (line : String) : Mode × String :=
       | some false => (.none, "lost=no")
       | none => (.none, "bad-op")
     | none => (.none, "bad-op")
+  | .none, ["stress", _, _] => (.none, "done")
+  | .none, ["rt", d, kind] =>
+    if (d = "iour" || d = "poll") && (kind = "file" || kind = "unix" || kind = "tcp") then
+      let s := init false
+      (.rt { s := s, helpers := [] }, showRt s "-")
+    else (.none, "bad-op")
+  | .none, ["prod", d, kind] =>
+    if (d = "iour" || d = "poll") &&
+        (kind = "accept" || (kind = "multi" && d = "iour") || isBlockingKind kind) then
+      (.pr { p := Compio.Produced.init, kind := kind, iour := d = "iour", conns := 0, peers := 0 }, "ok")
+    else (.none, "bad-op")
+  | .rt t, w =>
+    match rtEvent t w with
+    | some (t', o) => (.rt t', o)
+    | none => (.rt t, "rej")
+  | .pr t, ["end"] => (.none, prEnd t)
+  | .pr t, w =>
+    match prEvent t w with
+    | some (t', o) => (.pr t', o)
+    | none => (.pr t, "rej")
   | .sfd s, w =>
     match parseEv w with
     | some e =>
